@@ -45,6 +45,9 @@ def write_case(d, c):
     if c.get("other_xsl"):
         with open(os.path.join(d, "other.xsl"), "w", encoding="utf-8") as f:
             f.write(c["other_xsl"])
+    if c.get("rel_xml"):
+        with open(os.path.join(d, "rel.xml"), "w", encoding="utf-8") as f:
+            f.write(c["rel_xml"])
     pp = os.path.join(d, "params.txt")
     if c.get("params"):
         with open(pp, "w") as f:
@@ -171,7 +174,15 @@ def parse_block(block):
     return rows, tdig, notes
 
 
-def decide(rows, tdig, mode, notree=False):
+def decide(rows, tdig, mode, notree=False, needbase=False):
+    if needbase:
+        # the case observes the document's base URI (relative system identifiers of unparsed entities, document('x', /)):
+        # forms that cannot carry one (C API XalanParseSourceFromStream, CLI reading the source from stdin) are left out
+        rows = [x for x in rows if x[1] not in ("psstream", "stdin")]
+    return _decide(rows, tdig, mode, notree)
+
+
+def _decide(rows, tdig, mode, notree=False):
     """returns list of (kind, description, forms) problems.  rows: (api, source, ss, target, rc, digest, data)"""
     probs = []
     escaped = [x for x in rows if x[4] == -99]
@@ -263,7 +274,7 @@ def problems_of(harness, xalan, d, c):
     blocks = run_cases_robust(harness, [(d, c)], crashes)
     rows, tdig, notes = parse_block(blocks.get(d, []))
     crows, ccr = run_cli(xalan, d, c.get("params") or ())
-    probs, _ = decide(rows + crows, tdig, c["mode"], c.get("notree", False))
+    probs, _ = decide(rows + crows, tdig, c["mode"], c.get("notree", False), c.get("needbase", False))
     for combo, crc, err in crashes.get(d, []) + ccr:
         probs.append(("crash", "died", [combo]))
     return probs
@@ -371,6 +382,20 @@ def pi_corpus(g):
     return out
 
 
+def src_info_corpus(g, d, which="src-info"):
+    """a fixed document with everything a source form carries beyond the element tree (NDATA entities with relative and
+    absolute system identifiers, notations, default / #FIXED / ID / ENTITY attributes, internal entities, xml:lang, xml:space)
+    and the `src-info` probe; runs at every seed"""
+    from vlib.common import Rng
+    doctype, body, ra = g.dtd_rich(Rng(3))
+    probe = dict((p[0], p) for p in g.PROBES)[which]
+    xml = ('<?xml version="1.0"?>\n' + doctype + g.stylesheet_pi("base", Rng(1), d) + "<r%s>%s<m>tail</m></r>" % (ra, body))
+    xsl = ('<?xml version="1.0"?>\n<xsl:stylesheet version="1.0" xmlns:xsl="http://www.w3.org/1999/XSL/Transform">'
+           '<xsl:template match="/"><out>%s</out></xsl:template></xsl:stylesheet>\n' % probe[1])
+    return {"xml": xml, "xsl": xsl, "mode": "xml", "cls": "corpus-" + which, "probes": [which], "nodom": False,
+            "needbase": True, "rel_xml": '<?xml version="1.0"?>\n<rel>R-corpus</rel>\n', "pi": "base"}
+
+
 def run_forms(ctx, g, r):
     ctx.build("hooks")
     harness = common.build_harness("c05_forms", ["c05_forms.cpp"], flavor="hooks")
@@ -389,6 +414,10 @@ def run_forms(ctx, g, r):
         c = dict(c)
         c["xml"] = c["xml"].replace("@PI@", g.stylesheet_pi(c["pivar"], Rng(k + 1), d))
         cases.append((d, c))
+    d = os.path.join(wd, "s0")
+    cases.append((d, src_info_corpus(g, d)))
+    d = os.path.join(wd, "s1")
+    cases.append((d, src_info_corpus(g, d, "unparsed")))
     for i in range(ncases):
         d = os.path.join(wd, "g%d" % i)
         cases.append((d, g.gen_case(r, i, d)))
@@ -424,7 +453,7 @@ def run_forms(ctx, g, r):
         rows, tdig, notes = parse_block(blocks.get(d, []))
         rows = rows + cli[d]
         combos += len(rows)
-        probs, ref = decide(rows, tdig, c["mode"], c.get("notree", False))
+        probs, ref = decide(rows, tdig, c["mode"], c.get("notree", False), c.get("needbase", False))
         hard_notes = [n for n in notes if n.startswith(("parsefail", "harness-exception", "cprebuilt-unavailable", "bad"))]
         exc_notes = [n for n in hard_notes if n.startswith("harness-exception")]
         hard_notes = [n for n in hard_notes if not n.startswith("harness-exception")]
@@ -449,7 +478,8 @@ def run_forms(ctx, g, r):
                                                                                   "+".join(c.get("probes", [])))
             if ctx.fail(key, desc + " -- forms: " + ", ".join(forms)[:600], {"xml": c["xml"], "xsl": c["xsl"], "mode": c["mode"], "nodom": c.get("nodom", False), "dir": d, "out": c.get("out", "-"),
                                                                   "params": c.get("params"), "notree": c.get("notree", False),
-                                                                  "pi": c.get("pi"), "other_xsl": c.get("other_xsl")}) == "new" and len(shrunk) < 1 and len(ctx.failures) <= 3:
+                                                                  "pi": c.get("pi"), "other_xsl": c.get("other_xsl"),
+                                                                  "needbase": c.get("needbase", False), "rel_xml": c.get("rel_xml")}) == "new" and len(shrunk) < 1 and len(ctx.failures) <= 3:
                 # an unlisted failure: shrink the source document first (same kind of disagreement must persist)
                 small = shrink_case(harness, xalan, d, c, kind)
                 shrunk[kind] = small
@@ -474,7 +504,7 @@ def replay_forms(ctx, inp):
     rows, tdig, notes = parse_block(bl[0] if bl else [])
     crows, ccr = run_cli(xalan, d, c.get("params") or ())
     rows += crows
-    probs, ref = decide(rows, tdig, c["mode"], c.get("notree", False))
+    probs, ref = decide(rows, tdig, c["mode"], c.get("notree", False), c.get("needbase", False))
     for x in ccr:
         probs.append(("crash", "CLI died rc=%s" % x[1], [x[0]]))
     if rc != 0:
